@@ -14,6 +14,15 @@ def xkey_from_case(c):
     return rb32.XKey(None, secp.parse(c["K"]), c["c"], c.get("depth", 0), c.get("pindex", 0), pfp)
 
 
+_SUBCLASSES = {}
+
+
+def _subclass(cls):
+    if cls not in _SUBCLASSES:
+        _SUBCLASSES[cls] = type("Labelled" + cls.__name__, (cls,), {"label": lambda self: "depth %d" % self.depth})
+    return _SUBCLASSES[cls]
+
+
 def mk_node(xk, testnet=False, form="ctor", public=False, purpose=44):
     """Build the repo node for a ref XKey.
     form: 'ctor' (constructor, 32-byte key) | 'str' | 'bytes' | 'stream' (parsed, 33-byte key)"""
@@ -29,6 +38,11 @@ def mk_node(xk, testnet=False, form="ctor", public=False, purpose=44):
         ver = rb32.version_for("prv", testnet, purpose)
         payload = xk.payload(ver, True)
         keybytes = rb32.ser256(xk.k)
+    if form.startswith("sub-"):
+        # a subclass of the caller's own making (the library builds children with self.__class__, so subclassing is a supported
+        # use): the same data in a class whose type() is not the library's
+        cls = _subclass(cls)
+        form = form[4:]
     if form == "ctor":
         return cls(key=keybytes, chain_code=xk.c, index=xk.index, depth=xk.depth,
                    testnet=testnet, parent_fingerprint=xk.pfp)
